@@ -190,4 +190,30 @@ RECURSIVE SubTerms(_)
 SubTerms(e) == {e} \cup (IF e.k \in {"int", "id"} THEN {}
                          ELSE UNION {SubTerms(e.a[i]) : i \in 1..Len(e.a)}
                               \cup (IF e.k = "mem" THEN UNION {SubTerms(e.g[i]) : i \in 1..Len(e.g)} ELSE {}))
+\* IR!WellTyped without the width-agreement rules (operands of a binary operator, arms of a condition): such trees are
+\* reported as C04.welltyped but still have a value under IR!Eval (operands are extended / truncated to the width of the first)
+RECURSIVE Loose(_)
+Loose(e) ==
+  CASE e.k = "int" -> e.w >= 1 /\ IsBV(e.v, e.w)
+    [] e.k = "id" -> e.w >= 1
+    [] e.k = "mem" -> /\ e.w >= 8 /\ e.w % 8 = 0 /\ Len(e.a) = 1 /\ Loose(e.a[1]) /\ e.a[1].k # "aff" /\ Width(e.a[1]) >= 1
+                      /\ \A j \in 1..Len(e.g) : Loose(e.g[j]) /\ e.g[j].k # "aff"
+    [] e.k = "op" -> /\ Len(e.a) >= 1
+                     /\ \A j \in 1..Len(e.a) : Loose(e.a[j]) /\ e.a[j].k # "aff" /\ Width(e.a[j]) >= 1
+                     /\ (e.o \in ACOps \cup {"=="} => Len(e.a) >= 2)
+                     /\ (e.o = "-" => Len(e.a) \in {1, 2})
+                     /\ (e.o \in Shifts \cup {"=="} => Len(e.a) = 2)
+                     /\ (e.o \in {"parity", "!"} => Len(e.a) = 1)
+                     /\ (e.o \in DivOps \cup RcOps => Len(e.a) = 3)
+                     /\ (e.o \in MulOps => Len(e.a) = 2)
+    [] e.k = "cond" -> Len(e.a) = 3 /\ \A j \in 1..3 : Loose(e.a[j]) /\ e.a[j].k # "aff" /\ Width(e.a[j]) >= 1
+    [] e.k = "slice" -> /\ Len(e.a) = 1 /\ Loose(e.a[1]) /\ e.a[1].k # "aff"
+                        /\ 0 <= e.lo /\ e.lo < e.hi /\ e.hi <= Width(e.a[1])
+    [] e.k = "compose" -> /\ Len(e.a) >= 1 /\ Len(e.a) = Len(e.s)
+                          /\ \A j \in 1..Len(e.a) : /\ Loose(e.a[j]) /\ e.a[j].k # "aff"
+                                                    /\ Width(e.a[j]) >= e.s[j][2] - e.s[j][1]
+                                                    /\ e.s[j][1] >= 0 /\ e.s[j][2] > e.s[j][1]
+                          /\ Tiles(e.s, Width(e))
+    [] OTHER -> FALSE
+
 =============================================================================
